@@ -36,5 +36,6 @@ def run():
             rel = os.path.relpath(p, corpus.REPO)
             c.findings.append(Finding("bounded", "relayout:" + kind, "%s: %s" % (rel, why), {"file": p, "relayout": kind, "observed": why}, rel))
     if c.tier == "thorough":
-        run_selftest(c, ["mutants_vhdlfile.py"], lambda eng: QUALS)
+        # the mutants of this file also hit the splice (update) and the region helpers: every verified function of contracts/vhdlfile.py
+        run_selftest(c, ["mutants_vhdlfile.py"], lambda eng: sorted(q for q, ct in eng.contracts.items() if ct.get("_file") == "vhdlfile.py" and not ct.get("trusted") and ".classify." not in q))
     return c.finish({"explanation": META["text"]})
